@@ -273,9 +273,12 @@ pub struct FaultPlan {
 }
 
 /// One letter of an enumerated sequence of external events (family C13X): the simulator performs the
-/// letters in order, each one once the system has gone quiet (no runnable task, nothing on the wire), or -
-/// `eager` - right behind the previous letter with no task poll in between. A letter that is not enabled when
-/// its turn comes (sender busy / idle, nothing owed, already stalled) is skipped.
+/// letters in order. `delay` says when: 255 = once the system has gone quiet (no runnable task, nothing on
+/// the wire); k < 255 = after k task polls have happened since the previous letter (or at quiescence, if that
+/// comes first) - 0 is "right behind the previous letter", 1..3 land between an event and the wake-ups it
+/// causes (a waiter dropped, or a new operation started, after the dispatcher has processed an
+/// acknowledgement and before the woken waiter has run). A letter that is not enabled when its turn comes
+/// (sender busy / idle, nothing owed, already stalled) is skipped.
 #[derive(Clone, Copy, Debug, PartialEq, Eq)]
 pub enum ExtAct {
     /// start the next operation of sender i
@@ -292,7 +295,7 @@ pub enum ExtAct {
 #[derive(Clone, Copy, Debug, PartialEq, Eq)]
 pub struct ExtStep {
     pub act: ExtAct,
-    pub eager: bool,
+    pub delay: u8,
 }
 
 /// How a run ends after the scripted part.
